@@ -4,7 +4,7 @@ import datetime
 import astral
 from astral import Depression, SunDirection
 import astral.sun as sun
-from common import F, I, T, B, E, N, Case, call, wall_us, instant_us, td_us
+from common import F, FS, I, T, B, E, N, Case, call, wall_us, instant_us, td_us
 import zones
 import gens
 from gens import obs_tok, obs_descr, dir_tok
@@ -42,7 +42,7 @@ def gen_chain(rng, n, tier="quick"):
         jc = rng.uniform(-1.0, 1.01) if rng.random() < 0.8 else rng.uniform(-20, 80)
         name = CHAIN[i % len(CHAIN)]
         v = getattr(sun, name)(jc)
-        yield Case(name, "%s %s" % (name, F(jc)), F(v), {"jc": jc})
+        yield Case(name, "%s %s" % (name, F(jc)), FS(v), {"jc": jc})
 
 
 def gen_refraction(rng, n, tier="quick"):
@@ -57,8 +57,10 @@ def gen_refraction(rng, n, tier="quick"):
         else:
             z = rng.uniform(-100, 370)
         st, v = call(astral.refraction_at_zenith, z)
+        if st == "ok" and type(v) is int:
+            v = float(v)      # the function returns the int 0 above 85°; callers only add it
         yield Case("refraction_at_zenith", "refraction_at_zenith %s" % F(z),
-                   tok_res(st, v, F), {"zenith": z})
+                   tok_res(st, v, FS), {"zenith": z})
 
 
 def gen_hour_angle(rng, n, tier="quick"):
@@ -70,11 +72,11 @@ def gen_hour_angle(rng, n, tier="quick"):
         d = rng.choice([RISING, SETTING])
         st, v = call(sun.hour_angle, lat, dec, zen, d)
         yield Case("hour_angle", "hour_angle %s %s %s %s" % (F(lat), F(dec), F(zen), dir_tok(d)),
-                   tok_res(st, v, F), {"lat": lat, "dec": dec, "zenith": zen, "dir": d.name})
+                   tok_res(st, v, FS), {"lat": lat, "dec": dec, "zenith": zen, "dir": d.name})
         if i % 3 == 0:
             h = rng.choice([0.0, -5.0, 10 ** rng.uniform(-3, 5.6), 1e300, 5e-324])
             yield Case("adjust_to_horizon", "adjust_to_horizon %s" % F(h),
-                       F(sun.adjust_to_horizon(h)), {"elevation": h})
+                       FS(float(sun.adjust_to_horizon(h))), {"elevation": h})
             e = (rng.choice([-1, 1]) * 10 ** rng.uniform(-3, 4), 10 ** rng.uniform(0, 5))
             if rng.random() < 0.1:
                 e = rng.choice([(0.0, 10.0), (1e300, 1.0), (1e-200, 0.0), (5.0, 0.0), (-3.0, 4.0),
@@ -82,7 +84,7 @@ def gen_hour_angle(rng, n, tier="quick"):
             st, v = call(sun.adjust_to_obscuring_feature, e)
             yield Case("adjust_to_obscuring_feature",
                        "adjust_to_obscuring_feature %s %s" % (F(e[0]), F(e[1])),
-                       tok_res(st, v, F), {"elevation": list(e)})
+                       tok_res(st, v, FS), {"elevation": list(e)})
 
 
 # ------------------------------------------------------------------ transit and events
@@ -120,8 +122,17 @@ def gen_events(rng, n, tier="quick"):
         z = zones.rand_zone(rng, d0)
         d = gens.rand_date(rng, z) if z.iana else d0
         o = gens.rand_observer(rng)
-        tz = z.tzinfo
         k = i % 9
+        if rng.random() < 0.3 and k < 6:
+            # a zone in which this very event reads ~00:00: retry / "Unable to find" branches
+            base = {0: lambda: sun.dawn(o, d), 1: lambda: sun.dusk(o, d),
+                    2: lambda: sun.sunrise(o, d), 3: lambda: sun.sunset(o, d),
+                    4: lambda: sun.time_at_elevation(o, 6.0, d, RISING),
+                    5: lambda: sun.time_at_elevation(o, -6.0, d, SETTING)}[k]
+            st0, t0 = call(base)
+            if st0 == "ok":
+                z = zones.midnight_zone(rng, t0)
+        tz = z.tzinfo
         if k == 0:
             dep = gens.rand_depression(rng)
             yield _event_case(rng, "dawn", o, d, z, " " + F(dep),
@@ -166,6 +177,11 @@ def gen_periods(rng, n, tier="quick"):
         z = zones.rand_zone(rng, d0)
         d = gens.rand_date(rng, z) if z.iana else d0
         o = gens.rand_observer(rng)
+        if rng.random() < 0.2:
+            st0, t0 = call(rng.choice([lambda: sun.dusk(o, d), lambda: sun.dawn(o, d),
+                                       lambda: sun.sunrise(o, d), lambda: sun.sunset(o, d)]))
+            if st0 == "ok":
+                z = zones.midnight_zone(rng, t0)
         tz = z.tzinfo
         k = i % 6
         di = rng.choice([RISING, SETTING])
@@ -213,16 +229,16 @@ def gen_angles(rng, n, tier="quick"):
         if k == 0:
             st, v = call(sun.zenith_and_azimuth, o, dt, wr)
             yield Case("zenith_and_azimuth", "zenith_and_azimuth %s %s" % (base, B(wr)),
-                       ("%s %s" % (F(v[0]), F(v[1]))) if st == "ok" else E(v), descr)
+                       ("%s %s" % (FS(v[0]), FS(v[1]))) if st == "ok" else E(v), descr)
         elif k == 1:
             st, v = call(sun.zenith, o, dt, wr)
-            yield Case("zenith", "zenith %s %s" % (base, B(wr)), tok_res(st, v, F), descr)
+            yield Case("zenith", "zenith %s %s" % (base, B(wr)), tok_res(st, v, FS), descr)
         elif k == 2:
             st, v = call(sun.azimuth, o, dt)
-            yield Case("azimuth", "azimuth %s" % base, tok_res(st, v, F), descr)
+            yield Case("azimuth", "azimuth %s" % base, tok_res(st, v, FS), descr)
         else:
             st, v = call(sun.elevation, o, dt, wr)
-            yield Case("elevation", "elevation %s %s" % (base, B(wr)), tok_res(st, v, F), descr)
+            yield Case("elevation", "elevation %s %s" % (base, B(wr)), tok_res(st, v, FS), descr)
 
 
 GROUPS = {
